@@ -1,6 +1,6 @@
 """C20 - filter values are data, never SQL.
 SqlShape.tla: PostgreSQL's lexical structure as a character automaton (Skeleton), the value space (every string up to a
-bound over 13 SQL-relevant characters) and its harmless twin; TLC checks the automaton on a correct rendering (quote
+bound over 16 SQL-relevant characters) and its harmless twin; TLC checks the automaton on a correct rendering (quote
 doubling) and rejects the naive one. Every value is put into every filter slot of the real Store's list / count /
 aggregate queries over the recording fake driver; the structure of the recorded SQL for the value and for its twin is
 compared: by a Go transcription of the automaton on every line, and by TLC itself on a seeded sample plus every flagged
@@ -28,16 +28,17 @@ def run(ctx):
     # longer values: a seeded sample of length-3/4 strings is appended by hand (same alphabet)
     import random
     rng = random.Random(ctx.seed)
-    alphabet = [97, 58, 39, 34, 92, 45, 59, 63, 42, 47, 36, 32, 233]
+    alphabet = [97, 58, 39, 34, 92, 45, 59, 63, 42, 47, 36, 32, 233, 48, 40, 41]
+    harmless = lambda v: [c if c == 58 or 48 <= c <= 57 else 97 for c in v]
     with open(values, "a") as f:
         for _ in range(1500 if thorough else 250):
             n = rng.choice([3, 4, 4, 5])
             v = [rng.choice(alphabet) for _ in range(n)]
-            f.write(json.dumps({"v": v, "h": [58 if c == 58 else 97 for c in v]}) + "\n")
+            f.write(json.dumps({"v": v, "h": harmless(v)}) + "\n")
         # classic payloads
-        for payload in ["' OR '1'='1", "'; DROP TABLE logs; --", "a'/*", "x\\' OR 1=1 --", "$$;$$", "?;?", "a:b' or ''='", "é'é"]:
+        for payload in ["' OR '1'='1", "'; DROP TABLE logs; --", "a'/*", "x\\' OR 1=1 --", "$$;$$", "?;?", "a:b' or ''='", "é'é", "0) or (1=1", "1 or 1=1", "0;--", "what?", "k' or '1"]:
             v = [ord(c) for c in payload]
-            f.write(json.dumps({"v": v, "h": [58 if c == 58 else 97 for c in v]}) + "\n")
+            f.write(json.dumps({"v": v, "h": harmless(v)}) + "\n")
     binp = ctx.build("storeconf")
     res = ctx.path("results.ndjson")
     ctx.run([binp, "-mode", "sqlshape", "-in", values, "-out", res, "-stats", ctx.path("stats.json"), "-sample", "500" if thorough else "80", "-seed", str(ctx.seed)], timeout=3000)
@@ -69,7 +70,7 @@ def run(ctx):
     ctx.coverage.update({
         "states": g.get("distinct", 0), "transitions": g.get("generated", 0), "traces_validated_against_impl": st["cases"],
         "evaluations": st["cases"], "distinct_nontrivial": st["cases"],
-        "rule": "values = every string of length <= %d over {a : ' \" \\ - ; ? * / $ space e-acute} + a seeded sample of longer ones + classic payloads; each put into %d filter slots (address / account / source / destination / reference / timestamp / date / metadata key and value / balance asset, alone and inside $and / $or / $not) of the list, count and aggregate queries, with and without point-in-time; compared with the same query for the harmless twin; all distinct" % (3 if thorough else 2, st["slots"]),
+        "rule": "values = every string of length <= %d over {a : ' \" \\ - ; ? * / $ space e-acute 0 ( )} + a seeded sample of longer ones + classic payloads; each put into %d filter slots (address / account / source / destination / reference / timestamp / date / metadata key and value / balance asset, alone and inside $and / $or / $not) of the list, count and aggregate queries, with and without point-in-time; compared with the same query for the harmless twin; all distinct" % (3 if thorough else 2, st["slots"]),
         "rejected_as_invalid": st["rejected"], "structure_changed": st["structure_changed"], "lines_judged_by_tlc": nsample,
         "transcription_disagreements": counts.get("Conf_TranscriptionAgrees", 0), "by_slot": st["by_slot"], "samples": st["samples"][:2], "exhaustive": False,
     })
